@@ -32,6 +32,36 @@ def hist_program(fam: str, port: int, kinds: str, retries: int) -> dict:
             "case": {"case": "hist", "kinds": kinds, "fam": fam, "port": port}}
 
 
+def life_program(fam: str, port: int, ka: bool, kinds: str) -> dict:
+    """C10 at the level of the inverter object: keep-alive chosen through Inverter.set_keep_alive()."""
+    p = hist_program(fam, port, kinds, 0)
+    p["inv"][0]["keep_alive"] = ka
+    p["case"] = {"case": "life", "what": f"{fam}:{port}:{'ka' if ka else 'nka'}:{kinds}", "ka": ka}
+    return p
+
+
+def run_life(prog: dict) -> dict:
+    from .inv_driver import run_program
+    tr = run_program(prog)
+    opened: set = set()
+    steps = []
+    last_tr = 0
+    worst = 0
+    for ev in tr["ev"]:
+        if ev["e"] == "OPEN":
+            opened.add(ev["tr"])
+            worst = max(worst, len(opened))
+        elif ev["e"] in ("CLOSE", "PEERCLOSE"):
+            opened.discard(ev["tr"])
+        elif ev["e"] == "SEND":
+            last_tr = ev["tr"]
+        elif ev["e"] == "RET":
+            steps.append({"ok": bool(ev.get("ok")), "open": len(opened), "tr": last_tr})
+    c = dict(prog["case"])
+    c.update(steps=steps, worst=worst, status=tr["status"])
+    return c
+
+
 def run_hist(prog: dict) -> dict:
     from .inv_driver import run_program
     tr = run_program(prog)
@@ -92,7 +122,7 @@ def run_call(prog: dict) -> dict:
     return c
 
 
-def entry_program(what: str, timeout_s: float, retries: int, fam: str | None, answer: str | None = None) -> dict:
+def entry_program(what: str, timeout_s: float, retries: int, fam: str | None, answer: str | None = None, port: int = 8899) -> dict:
     """Entry point on a silent network, or one where only the AA55 identification probe is answered (with a serial
     number carrying the model tag `answer`) and every later request goes unanswered."""
     sim = {"silent": [[0, 65535]], "aa55": {"mute": True}}
@@ -100,6 +130,8 @@ def entry_program(what: str, timeout_s: float, retries: int, fam: str | None, an
         sim = {"silent": [[0, 65535]], "aa55": {"info": list(es_info(serial_for(answer) if answer not in ("ESU", "BPS") else "95048" + answer + "000W0000")),
                                                 "info_once": True}}
     kw = {"timeout": timeout_s, "retries": retries}
+    if port != 8899:
+        kw["port"] = port
     if what == "connect":
         calls = [{"api": "goodwe.connect", "args": ["inv0"], "kw": dict(kw, family=fam)}]
     elif what == "connect_discover":
@@ -110,7 +142,7 @@ def entry_program(what: str, timeout_s: float, retries: int, fam: str | None, an
         calls = [{"api": "goodwe.search_inverters", "args": []}]
         timeout_s, retries = 1, 0
     return {"inv": [{"family": None, "sim": sim}], "calls": calls, "delay": 0,
-            "case": {"case": "entry", "what": what + (":" + fam if fam else "") + ("/answer=" + answer if answer else ""),
+            "case": {"case": "entry", "what": what + (":" + fam if fam else "") + ("/answer=" + answer if answer else "") + (f"/port={port}" if port != 8899 else ""),
                      "T": int(round(timeout_s / TICK)), "retries": retries}}
 
 
@@ -126,7 +158,10 @@ def run_entry(prog: dict) -> dict:
         if ev["e"] == "XCALL":
             probe += 1          # every ProtocolCommand.execute() call is one probe
         elif ev["e"] == "SEND":
-            f = frames.setdefault(bytes(ev["data"]), len(frames) + 1)
+            key = bytes(ev["data"])
+            if len(key) >= 8 and key[2:4] == b"\0\0" and int.from_bytes(key[4:6], "big") == len(key) - 6:
+                key = b"\0\0" + key[2:]       # Modbus/TCP: the same request apart from the transaction id
+            f = frames.setdefault(key, len(frames) + 1)
             sends.append({"t": ev["t"], "f": f * 1000 + probe, "a": False})
         elif ev["e"] == "DLV" and sends:
             sends[-1]["a"] = True
@@ -139,7 +174,7 @@ def run_entry(prog: dict) -> dict:
     return c
 
 
-CASE_DEFAULT = {"case": "", "hist": [], "ok": False, "fam": False, "exc": "", "unhandled": False, "sends": [], "T": 0,
+CASE_DEFAULT = {"ka": False, "steps": [], "worst": 0, "case": "", "hist": [], "ok": False, "fam": False, "exc": "", "unhandled": False, "sends": [], "T": 0,
                 "retries": 0, "endT": 0}
 
 
@@ -147,7 +182,15 @@ def extend(run: Run, prop: str, tier: str, rnd: random.Random) -> None:
     """Adds the API-level cases of `prop` (C05 or C09) to a run that already holds the protocol-level part."""
     quick = tier == "quick"
     cases = []
-    if prop == "C09":
+    if prop == "C10":
+        progs = []
+        for fam, port in (("ET", 8899), ("ET", 502), ("DT", 8899), ("DT", 502), ("ES", 8899)):
+            for ka in (True, False):
+                for n in (1, 2, 3):
+                    for kinds in itertools.product("SFRE", repeat=n):
+                        progs.append(life_program(fam, port, ka, "".join(kinds)))
+        cases += engine.parallel_map("harness.checks_api", "run_life", progs, procs=16, chunk=20)
+    elif prop == "C09":
         L = 5 if quick else 8
         progs = []
         for n in range(1, L + 1):
@@ -173,8 +216,10 @@ def extend(run: Run, prop: str, tier: str, rnd: random.Random) -> None:
         grid = [(2, 1), (3, 0), (1, 4), (0.5, 2)] if quick else [(2, 1), (3, 0), (1, 4), (0.5, 2), (1, 3), (5, 5), (0.25, 1), (10, 0)]
         eprogs = []
         for t, r in grid:
-            for fam in ("ET", "ES", "DT", "EH", "BP", "MS"):
+            for fam in ("ET", "EH", "BT", "BH", "ES", "EM", "BP", "DT", "MS", "D-NS", "XS"):      # every accepted family name
                 eprogs.append(entry_program("connect", t, r, fam))
+            for fam in ("ET", "DT", "EH"):
+                eprogs.append(entry_program("connect", t, r, fam, port=502))
             eprogs.append(entry_program("connect_discover", t, r, None))
             eprogs.append(entry_program("discover", t, r, None))
             for tag in ("ETU", "EHU", "ETT", "ESU", "BPS", "DTU", "DSN", "MSU"):
